@@ -9,6 +9,10 @@ NOTE = ("Trusted: Lean 4.33 kernel; axioms propext, Classical.choice, Quot.sound
         "harness/translate.py; the correspondence check (differential testing, generator quality bounds what it sees). ")
 
 CHECKS = {
+    "C11": dict(
+        text="The reconstruction formula of _reconstruct (both representation branches) and the residual of the offset fit are re-translated from /repo on every run. Proved: the admittance and impedance branches are the same formula 2/pi*I + gamma*D with gamma = -pi/6 (rec_branches_agree, rec_Z_formula); for EVERY constant-phase immittance K*(j*omega)^alpha with K > 0 and -1 <= alpha <= 1 (R, C, L, Q, W; any parameters) and any two positive angular frequencies the formula applied to the exact phase returns exactly ln|Z(w0)| - ln|Z(ws)| (zhit_exact_constant_phase, via norm_Zcp / arg_Zcp); the offset objective only depends on points with non-zero weight (offset_ignores_zero_weights), its minimiser is unique and equals the exact offset whenever one exists and some weight is non-zero (offset_unique_of_exact), and adding ln c to the measured ln|Z| shifts the objective - hence the fitted offset and the reconstruction - by exactly ln c (offset_shift); a kernel with unit sum and vanishing first moment reproduces constant and linear data (conv_preserves_affine). Tie: the real _reconstruct / _offset_residual are run on inputs with known integral and derivative and compared with the translated terms. PARTIAL: quadrature, the four SciPy interpolators, the five smoothers as implemented, lmfit's minimisation and the 'few percent' clause for ladders are decided by the direct oracle on perform_zhit with frozen bands (incl. agreement with the ideal two-term formula on the analytic phase, which pins sign and size of the derivative term).",
+        ref="§4 C11", tech=TECH_T,
+        note=NOTE + "scipy.integrate.quad, scipy.interpolate, scipy.signal.savgol_filter, statsmodels LOWESS and lmfit are runtime; the integral of the phase is Mathlib's interval integral."),
     "C09": dict(
         text="Proved (on C07's regenerated design-matrix columns and the hand model of _generate_time_constants, whose Float instance is compared with the implementation): multiplying all frequencies by c > 0 divides every time constant by c (tau_closed_form, tau_scale) and multiplies each column by a fixed non-zero factor (kth_Z_scale … ind_Y_scale), i.e. A(c w, tau/c) = A(w, tau) D; least-squares problems are equivariant: scaling the right-hand side scales the minimisers (lsq_scale_rhs: impedance units), an invertible diagonal rescaling of the columns rescales the minimisers inversely (lsq_scale_columns: frequency units), permuting the rows leaves them unchanged (lsq_row_perm: point order); relative residuals are invariant under a common scaling of data and model (residual_scale_invariant). PARTIAL: that the numerical solvers return the equivariant minimiser (conditioning, SVD cut-offs, the dimensional guard constants of the matrix-inversion tests) is decided by the metamorphic oracle on the implementation with tolerances.",
         ref="§4 C09", tech=TECH_T,
